@@ -945,6 +945,11 @@ ASSUMPTIONS = [
 
 
 def run(tier, seed):
+    def extra(r, cases, obs):
+        cov = _extra(r, cases, obs)
+        from . import c14init      # several pools over one vips directory: initialize() of one and the owners of another
+        cov.update(c14init.stage(r, seed, 300 if tier == 'quick' else 8000))
+        return cov
     core.standard_run(PID, tier, seed, {
         'model_vos': ['Node/Owners'], 'table_sections': ['source_shape'],
         'preamble': PREAMBLE, 'run_fn': RUN_FN, 'in_type': IN_TYPE,
@@ -964,10 +969,13 @@ def run(tier, seed):
                 'intruder frees); non-trivial = a release by a non-owner hit a held entry, or a collection removed '
                 'something, or a repeated service request found its device, or an owner registered an entry '
                 'during a collection',
-        'trusted': TRUSTED, 'assumptions': ASSUMPTIONS, 'anchors': ANCHORS, 'extra': _extra,
+        'trusted': TRUSTED, 'assumptions': ASSUMPTIONS, 'anchors': ANCHORS, 'extra': extra,
     })
 
 
 def replay_case(case):
+    if isinstance(case, dict) and case.get('engine') == 'E-node-c14init':
+        from . import c14init
+        return c14init.replay_case(case)
     v = oracle(case, impl_run(case))
     return v[0] if v else None
